@@ -653,6 +653,19 @@ fn gen_steps(r: &mut Rng, root: &Value, k: usize) -> Vec<String> {
 }
 
 pub fn generate(r: &mut Rng, count: usize, emit: &mut dyn FnMut(String)) {
+    // datums whose span information has every shape in every position: improper lists whose tail is a vector,
+    // a string, a nested improper list; vectors of such; quote forms — copied, compared and walked
+    for text in ["(a . #(1 2))", "(a b . #())", "((x . #(1)) . #(2 (3 . #(4))))", "#((a . #(1)) (b . \"s\"))", "(a . \"s\")", "'(a . #(b))",
+                 "(a (b . #(c (d . #(e)))) . #(f))", "(#(1) #(2) . #(3))", "(a . (b . (c . #(d))))", "`(a ,@(b . #(c)) . #(d))"] {
+        for other in [text, "(a . #(1 3))", "(a . #(1 2) )", "(a b)"] {
+            emit(format!("dclone {} {} {} {}", fast_flag(), R_DEFAULT, hex(text.as_bytes()), hex(other.as_bytes())));
+        }
+        let br = text.replace("#(", "[").replace(')', "]").replace('(', "[");
+        let _ = br;
+    }
+    for text in ["(a . [1 2])", "(a b . [])", "[(a . [1]) (b . \"s\")]", "(a . (b . [c]))"] {
+        emit(format!("dclone {} {} {} {}", fast_flag(), R_ELISP, hex(text.as_bytes()), hex(text.as_bytes())));
+    }
     for idx in 0..count {
         match r.below(20) {
             0..=7 => {
